@@ -338,6 +338,7 @@ type c20Case struct {
 	Nest     bool      `json:"nest,omitempty"`   // one more level of (binary op + parentheses) around the construct
 	Second   bool      `json:"second,omitempty"` // a second, different faulty statement further down the same rule
 	Tab      bool      `json:"tab,omitempty"`    // tab indentation
+	Col0     bool      `json:"col0,omitempty"`   // no indentation at all: the construct's first token is the first character of its line
 	Twin     bool      `json:"twin,omitempty"`   // the same construct text occurs earlier in the rule, in a branch that never runs
 	MustCite bool      `json:"must_cite"`
 	Rule     string    `json:"rule"`
@@ -456,15 +457,18 @@ func c20Twin(b *c20Builder, body []c20Piece) {
 }
 
 // c20Solo builds the smallest text with the fault: one rule, nothing around the construct.
-func c20Solo(f c20Fault, ctx string, twin bool) (c20Case, bool) {
+func c20Solo(f c20Fault, ctx string, twin, col0 bool) (c20Case, bool) {
 	body, ok := c20Place(f, ctx, false)
 	if !ok {
 		return c20Case{}, false
 	}
 	b := &c20Builder{indent: " "}
+	if col0 {
+		b.indent = "" // every line, the construct's included, starts in column 0
+	}
 	b.raw("rule \"ra\" begin")
 	if f.Class == "compound" {
-		b.raw(" ix = 1")
+		b.raw(b.indent + "ix = 1")
 	}
 	if twin {
 		c20Twin(b, body)
@@ -472,7 +476,7 @@ func c20Solo(f c20Fault, ctx string, twin bool) (c20Case, bool) {
 	b.add(body, false, 0)
 	b.raw("end")
 	primary, accept := b.result()
-	return c20Case{Class: f.Class, Variant: f.Variant, Ctx: ctx, Solo: true, Twin: twin, MustCite: f.MustCite, Rule: "ra",
+	return c20Case{Class: f.Class, Variant: f.Variant, Ctx: ctx, Solo: true, Twin: twin, Col0: col0, MustCite: f.MustCite, Rule: "ra",
 		Primary: primary, Accept: accept, Nodes: b.nodes, Text: strings.Join(b.lines, "\n") + "\n"}, true
 }
 
@@ -546,10 +550,13 @@ func c20Cases(thorough bool) (out []c20Case, head int) {
 	faults := c20Faults()
 	for _, ctx := range c20Ctxs {
 		for _, f := range faults {
-			if cs, ok := c20Solo(f, ctx, false); ok {
+			if cs, ok := c20Solo(f, ctx, false, false); ok {
 				out = append(out, cs)
 			}
-			if cs, ok := c20Solo(f, ctx, true); ok {
+			if cs, ok := c20Solo(f, ctx, true, false); ok {
+				out = append(out, cs)
+			}
+			if cs, ok := c20Solo(f, ctx, false, true); ok {
 				out = append(out, cs)
 			}
 		}
@@ -683,6 +690,9 @@ func c20Judge(cs c20Case) c20Verdict {
 	}
 	if cs.Solo {
 		desc = fmt.Sprintf("%s/%s in %s (one-rule text)", cs.Class, cs.Variant, cs.Ctx)
+	}
+	if cs.Col0 {
+		desc += " [no indentation: the construct starts in column 0]"
 	}
 	if cs.Twin {
 		desc += " [the same construct text also occurs earlier in the rule, in a branch that never runs]"
@@ -987,13 +997,13 @@ func init() {
 	hx.Register(&hx.Prop{
 		ID:          "C20",
 		Workers:     func(string) int { return 16 },
-		BudgetQuick: 150 * time.Second,
+		BudgetQuick: 300 * time.Second,
 		BudgetThor:  20 * time.Minute,
 		Kind:        "cases",
 		Rule: "one compiled three-rule text per case: fault class/variant (34: arithmetic ill-typed, division by zero (literal and injected divisors of kind int, uint64, uint8, float64), comparison/logic ill-typed, unknown/panicking/ill-typed-argument function, panicking/unknown method, three-level call, unassignable/unknown/mismatching assignment target, compound assignment, map-var on a non-container, unknown variable, forRange over a non-iterable) " +
 			"x enclosing statement kind (14: top level, assignment rhs, if body/condition, else-if condition, else body, for body/condition/init/step, forRange body, call argument, return expression, conc block; combinations the grammar cannot express are skipped) " +
 			"x faulty rule is rule 1, 2 or 3 x 0-3 blank/comment lines in front x construct (and carrier) tokens on one line or one per line x LF/CRLF; a subset of the texts also through the other compile entry points (incremental build on an empty / non-empty builder, pool construction, pool full and incremental update) and with 1-2 empty lines in front of the whole text " +
-			"plus the faulty rule alone in a one-rule text (smallest reproducers), plus layouts in which the same construct text occurs once more earlier in the rule inside a branch that never runs " +
+			"plus the faulty rule alone in a one-rule text (smallest reproducers), plus one-rule texts without any indentation (constructs start in column 0), plus layouts in which the same construct text occurs once more earlier in the rule inside a branch that never runs " +
 			"(thorough: x {plain, one more nesting level, a second later fault + tab indentation, all three}); only the faulty rule is executed; every `line N` of its error must be the start line of the reporting construct or of an enclosing assignment/call/expression node " +
 			"(and, when the message names a construct on that path by its code text, of exactly that construct), and listed fault classes must cite one; columns are not judged",
 		Assume:     []string{"injected functions and methods either return or panic", "the word 'line' does not occur in rule names, identifiers, literals or panic values of the generated programs"},
